@@ -122,6 +122,7 @@ def _(c):
     c.cases(("legacy", {"__self__": {"_ezsp": T.ext(NCP_LEGACY)}}), ("unified", {"__self__": {"_ezsp": T.ext(NCP_UNIFIED)}}))
     c.arg("group_id", T.range(0, 0xFFFF))
     c.setup = _ghost_groups
+    c.returns(T.oneof(T.enum(t.sl_Status), T.enum(t.EmberStatus)))  # at call sites: a status of either family
     c.raises("timeout", TimeoutError)
     c.raises("ezsp", EzspError)
     c.raises("cancelled", asyncio.CancelledError)
@@ -196,6 +197,7 @@ def _(c):
     c.cases(("legacy", {"__self__": {"_ezsp": T.ext(NCP_LEGACY)}}), ("unified", {"__self__": {"_ezsp": T.ext(NCP_UNIFIED)}}))
     c.arg("group_id", T.range(0, 0xFFFF))
     c.setup = _ghost_groups
+    c.returns(T.oneof(T.enum(t.sl_Status), T.enum(t.EmberStatus)))  # at call sites: a status of either family
     c.raises("timeout", TimeoutError)
     c.raises("ezsp", EzspError)
     c.raises("cancelled", asyncio.CancelledError)
@@ -240,3 +242,154 @@ def _(c):
     c.ensures("post.other_groups_untouched", lambda self, group_id: unchanged_except(self._multicast, old(self._multicast), [group_id]), on="any")
     c.ensures("inv.index_free_xor_used_by_one_group", lambda self, g0, g1, group_id: rep_ok(self, g0, g1, group_id), on="any")
     c.modifies("self._multicast", "self._available")
+
+
+# ---------------------------------------------------------------------------
+# start-up: the table scan (C15 "after any sequence of start-up, subscribe and unsubscribe calls")
+# ---------------------------------------------------------------------------
+def _init_ghosts(I, b):
+    """arbitrary ghost groups g0 != g1 and an arbitrary ghost table index j, fixed before the scan: the loop
+    invariants are stated pointwise at them, i.e. for every group / index"""
+    g0, g1 = T.range(0, 0xFFFF).fresh(I, "g0"), T.range(0, 0xFFFF).fresh(I, "g1")
+    b["g0"], b["g1"] = g0, g1
+    I.ctx.assume(g0.t != g1.t)
+    b["j"] = T.int.fresh(I, "j")
+
+
+def table_reads(fx):
+    return [r for r in fx if r[0] == "call" and r[1].endswith(".getMulticastTableEntry")]
+
+
+def read_results(fx):
+    return [r[2] for r in fx if r[0] == "ret" and r[1].endswith(".getMulticastTableEntry")]
+
+
+def config_reads(fx):
+    return [r for r in fx if r[0] == "call" and r[1].endswith(".getConfigurationValue")]
+
+
+def config_results(fx):
+    return [r[2] for r in fx if r[0] == "ret" and r[1].endswith(".getConfigurationValue")]
+
+
+def any_ncp_write(fx):
+    return [r for r in fx if r[0] == "call" and ".set" in r[1]]
+
+
+@contract("bellows.multicast.Multicast._initialize", props=["C15"])
+def _(c):
+    c.self(MC_LEGACY)
+    c.cases(("legacy", {"__self__": {"_ezsp": T.ext(NCP_LEGACY)}}), ("unified", {"__self__": {"_ezsp": T.ext(NCP_UNIFIED)}}))
+    c.setup = _init_ghosts
+    c.raises("timeout", TimeoutError)
+    c.raises("ezsp", EzspError)
+    c.raises("cancelled", asyncio.CancelledError)
+    c.loop(
+        0,
+        each_old="head",
+        at_entry=[
+            # every index of the table the NCP reports is scanned: 0 .. size-1, size being the value just read
+            ("scans_the_whole_table", lambda _lo, _hi, fx: _lo == 0 and len(config_results(fx)) == 1 and _hi == config_results(fx)[0].items[1]),
+        ],
+        invariants=[
+            # what is recorded so far comes from the indices already scanned (so the scan starts from an empty view)
+            ("free_indices_come_from_scanned_entries", lambda self, _i: forall(lambda k: implies(k in self._available, 0 <= k and k < _i))),
+            ("used_indices_come_from_scanned_entries",
+             lambda self, g0, g1, _i: implies(g0 in self._multicast, 0 <= self._multicast[g0][1] and self._multicast[g0][1] < _i)
+             and implies(g1 in self._multicast, 0 <= self._multicast[g1][1] and self._multicast[g1][1] < _i)),
+            # "Every table index is always either free or used by exactly one group"
+            ("index_free_xor_used_by_one_group", lambda self, g0, g1: rep_ok(self, g0, g1, g0)),
+            ("recorded_under_its_own_group_id",
+             lambda self, g0: implies(g0 in self._multicast, self._multicast[g0][0].multicastId == g0 and self._multicast[g0][0].endpoint != 0)),
+        ],
+        each=[
+            # the scan reads exactly the entry of this index, and writes nothing to the NCP
+            ("reads_this_index_only", lambda _i, fx: len(table_reads(fx)) == 1 and table_reads(fx)[0][2][0] == _i and any_ncp_write(fx) == []),
+            # "the groups the host reports as subscribed are exactly those programmed with a non-zero endpoint"
+            (
+                "programmed_entry_is_recorded_with_its_index",
+                lambda self, _i, fx: implies(
+                    len(read_results(fx)) == 1
+                    and t.sl_Status.from_ember_status(read_results(fx)[0].items[0]) == t.sl_Status.OK
+                    and read_results(fx)[0].items[1].endpoint != 0,
+                    read_results(fx)[0].items[1].multicastId in self._multicast
+                    and self._multicast[read_results(fx)[0].items[1].multicastId][1] == _i
+                    and self._multicast[read_results(fx)[0].items[1].multicastId][0].multicastId == read_results(fx)[0].items[1].multicastId
+                    and (_i in self._available) == old(_i in self._available)
+                    and unchanged_except(self._multicast, old(self._multicast), [read_results(fx)[0].items[1].multicastId]),
+                ),
+            ),
+            (
+                "unprogrammed_entry_is_free",
+                lambda self, _i, fx: implies(
+                    len(read_results(fx)) == 1
+                    and t.sl_Status.from_ember_status(read_results(fx)[0].items[0]) == t.sl_Status.OK
+                    and read_results(fx)[0].items[1].endpoint == 0,
+                    _i in self._available and unchanged_except(self._multicast, old(self._multicast), []),
+                ),
+            ),
+            (
+                "unreadable_entry_changes_nothing",
+                lambda self, _i, fx: implies(
+                    len(read_results(fx)) == 1 and t.sl_Status.from_ember_status(read_results(fx)[0].items[0]) != t.sl_Status.OK,
+                    (_i in self._available) == old(_i in self._available) and unchanged_except(self._multicast, old(self._multicast), []),
+                ),
+            ),
+            ("other_free_indices_untouched", lambda self, j, _i: implies(j != _i, (j in self._available) == old(j in self._available))),
+        ],
+    )
+    # the table size is asked once, before anything else; an unreadable size leaves an empty view and reads no entry
+    c.ensures("post.size_asked_once", lambda fx: len(config_reads(fx)) == 1
+              and config_reads(fx)[0][2][0] == t.EzspConfigId.CONFIG_MULTICAST_TABLE_SIZE, on="any")
+    c.ensures("post.view_consistent", lambda self, g0, g1: rep_ok(self, g0, g1, g0))
+    c.ensures("post.nothing_written_to_the_ncp", lambda fx: any_ncp_write(fx) == [], on="any")
+    c.modifies("self._multicast", "self._available")
+
+
+# ---- Multicast.startup: the scan first, then one subscribe per group of every application endpoint ------------
+EP = ext_class("endpoint", fields={"member_of": T.list(T.range(0, 0xFFFF), T.range(0, 0xFFFF))}, stable_fields=("member_of",))
+EP0 = ext_class("zdo_endpoint", fields={"member_of": T.list(T.range(0, 0xFFFF))}, stable_fields=("member_of",))
+
+
+def _coordinator_type():
+    from pyvc.contracts import Ty
+
+    class EndpointsT(Ty):
+        """{0: <zdo endpoint>, 1: <endpoint with two groups>, 242: <endpoint with two groups>}: concrete spine,
+        symbolic group ids"""
+
+        def fresh(self, I, name):
+            return {0: T.ext(EP0).fresh(I, name + "[0]"), 1: T.ext(EP).fresh(I, name + "[1]"), 242: T.ext(EP).fresh(I, name + "[242]")}
+
+    return ext_class("coordinator", fields={"endpoints": EndpointsT()}, stable_fields=("endpoints",))
+
+
+COORD = _coordinator_type()
+
+
+def sub_calls(fx):
+    return [r for r in fx if r[0] == "call" and r[1].endswith("Multicast.subscribe")]
+
+
+def init_calls(fx):
+    return [r for r in fx if r[0] == "call" and r[1].endswith("Multicast._initialize")]
+
+
+@contract("bellows.multicast.Multicast.startup", props=["C15"])
+def _(c):
+    c.self(MC_LEGACY)
+    c.arg("coordinator", T.ext(COORD))
+    c.raises("timeout", TimeoutError)
+    c.raises("ezsp", EzspError)
+    c.raises("cancelled", asyncio.CancelledError)
+    # start-up = table scan, then the groups of every endpoint but the ZDO endpoint are subscribed, in order,
+    # nothing else
+    c.ensures(
+        "post.scan_then_subscribe_every_group_of_every_application_endpoint",
+        lambda coordinator, fx: len(init_calls(fx)) == 1
+        and [r[2][0] for r in sub_calls(fx)]
+        == coordinator.endpoints[1].member_of + coordinator.endpoints[242].member_of
+        and [r[1] for r in fx if r[0] == "call"][0].endswith("Multicast._initialize"),
+    )
+    c.ensures("post.scan_comes_first", lambda fx: implies(len([r for r in fx if r[0] == "call"]) > 0,
+                                                          [r[1] for r in fx if r[0] == "call"][0].endswith("Multicast._initialize")), on="any")
